@@ -133,7 +133,7 @@ theorem eval_step_aux (c : Config) (hce : c.endian = e) (hcenc : c.encoding = en
       simp only [branchImage, execute, hd2, bind_eq_ok, Prod.exists] at hr
       obtain ⟨entry, m2, hpop, v, hv, hr⟩ := hr
       have hs2 := (pop_keeps _ _ (same_refl _)).out _ _ hpop
-      obtain ⟨hpc2, hbc2⟩ := hs2
+      obtain ⟨hpc2, hbc2, _⟩ := hs2
       simp only at hpc2 hbc2
       split at hr
       · rw [hpc2, hbc2, hmb, hcp] at hr
@@ -148,7 +148,7 @@ theorem eval_step_aux (c : Config) (hce : c.endian = e) (hcenc : c.encoding = en
     have hnb : ∀ t, ¬ isBranchTo op t := fun t ht => hbr ⟨t, ht⟩
     obtain ⟨hns, hnbr⟩ := opImage_not_branch e enc uo hasRefs offs _ op img himg hnb
     have hk := (execute_keeps c img _ hns hnbr).out _ _ hr
-    obtain ⟨hpc, hbc⟩ := hk
+    obtain ⟨hpc, hbc, _⟩ := hk
     simp only at hpc hbc
     obtain ⟨bj, fj, hj, hdj⟩ := hnext
     exact ⟨by rw [hbc, hmb], pre.length + 1, bj, fj, by simp, hj, by rw [hpc, hdj]⟩
